@@ -10,12 +10,18 @@ import (
 	"fmt"
 	"os"
 	"path/filepath"
+	"runtime"
+	"strings"
+	"sync"
+	"sync/atomic"
 	"testing"
+	"time"
 
 	"pgregory.net/rapid"
 
 	"github.com/KevoDB/kevo/pkg/engine"
 	"github.com/KevoDB/kevo/pkg/replication"
+	"github.com/KevoDB/kevo/pkg/verifhook"
 	"github.com/KevoDB/kevo/pkg/wal"
 
 	"verif/internal/drive"
@@ -30,7 +36,7 @@ const rule = "case = rapid-drawn program of single writes, batches of 1-50 entri
 	"than it, Primary.GetLastSequence() never decreases (also compared across a restart of the primary); (b) after every close the log " +
 	"directory is read back with wal.ReplayWALDir: the stored entries in file order must partition into exactly the acknowledged writes in " +
 	"issue order (the entries of one batch share one number) with strictly increasing numbers from write to write, across files. " +
-	"non-trivial = a write after a rotation or reopen, or a single write directly after a multi-entry batch; distinct by case hash"
+	"TestPropConcurrent: 2-6 writers (one key each) and a flusher under a yield plan at rotation/flush hook sites: every acknowledged write is stamped above everything acknowledged before it started, each writer reads its own write back, the log read-back is strictly increasing with one entry per acknowledged write. non-trivial = a write after a rotation or reopen, or a single write directly after a multi-entry batch; distinct by case hash"
 
 func TestMain(m *testing.M) {
 	if os.Getenv("VERIF_CHILD_SPEC") != "" {
@@ -64,10 +70,11 @@ type Case struct {
 
 // Doc is the replay document.
 type Doc struct {
-	Property string `json:"property"`
-	Kind     string `json:"kind"` // seq | crash
-	Case     Case   `json:"case"`
-	Failure  string `json:"failure,omitempty"`
+	Property string    `json:"property"`
+	Kind     string    `json:"kind"` // seq | crash
+	Case     Case      `json:"case"`
+	Conc     *ConcCase `json:"conc,omitempty"`
+	Failure  string    `json:"failure,omitempty"`
 }
 
 type failure struct{ sig, msg string }
@@ -512,6 +519,153 @@ func TestPropCrash(t *testing.T) {
 	})
 }
 
+// ConcCase: several writers and a flusher; the log must still be ordered by
+// sequence number and every acknowledged write stamped above everything
+// acknowledged before it started.
+type ConcCase struct {
+	Cfg     drive.Cfg `json:"cfg"`
+	Writers int       `json:"writers"`
+	Ops     int       `json:"ops"`
+	ValLen  int       `json:"val_len"`
+	Flushes int       `json:"flushes"`
+	Yield   []uint8   `json:"yield"`
+}
+
+func runConc(c *ConcCase) *failure {
+	dir, err := os.MkdirTemp("", "c08p-")
+	if err != nil {
+		panic(err)
+	}
+	defer os.RemoveAll(dir)
+	e, err := drive.Open(dir, c.Cfg)
+	if err != nil {
+		return &failure{"open-error", err.Error()}
+	}
+	var yi atomic.Uint64
+	if len(c.Yield) > 0 {
+		verifhook.Set(func(site string) {
+			if !strings.HasPrefix(site, "storage.rotate.") && !strings.HasPrefix(site, "storage.flush") && site != "storage.put.after_wal" {
+				return
+			}
+			switch c.Yield[int(yi.Add(1))%len(c.Yield)] {
+			case 1:
+				runtime.Gosched()
+			case 2:
+				time.Sleep(30 * time.Microsecond)
+			case 3:
+				time.Sleep(300 * time.Microsecond)
+			}
+		})
+		defer verifhook.Reset()
+	}
+	var ackedMax atomic.Uint64 // highest last_sequence observed after any acknowledged write
+	var acked atomic.Int64
+	var mu sync.Mutex
+	var fail *failure
+	var wg sync.WaitGroup
+	stop := make(chan struct{})
+	for w := 0; w < c.Writers; w++ {
+		wg.Add(1)
+		go func(w int) {
+			defer wg.Done()
+			key := []byte(fmt.Sprintf("w%02d", w))
+			for i := 0; i < c.Ops; i++ {
+				before := ackedMax.Load() // every write acknowledged before this one started has a number <= before
+				val := make([]byte, 8+c.ValLen)
+				copy(val, fmt.Sprintf("%02d-%05d", w, i))
+				if err := e.Put(key, val); err != nil {
+					continue // a failed write is not acknowledged
+				}
+				acked.Add(1)
+				cur := lastSeq(e)
+				if cur <= before && before > 0 {
+					mu.Lock()
+					if fail == nil {
+						fail = &failure{"conc:stats-not-above-earlier-ack", fmt.Sprintf("writer %d op %d acknowledged; storage_last_sequence is %d, a write acknowledged before this one started had already %d", w, i, cur, before)}
+					}
+					mu.Unlock()
+					return
+				}
+				for {
+					old := ackedMax.Load()
+					if cur <= old || ackedMax.CompareAndSwap(old, cur) {
+						break
+					}
+				}
+				// read-your-write: the writer owns its key
+				if got, err := e.Get(key); err != nil || !bytes.Equal(got, val) {
+					mu.Lock()
+					if fail == nil {
+						fail = &failure{"conc:own-write-not-read", fmt.Sprintf("writer %d op %d: read back %q err=%v, wrote %q (an older write with a larger sequence number wins)", w, i, trunc(got), err, trunc(val))}
+					}
+					mu.Unlock()
+					return
+				}
+			}
+		}(w)
+	}
+	go func() {
+		for i := 0; i < c.Flushes; i++ {
+			select {
+			case <-stop:
+				return
+			default:
+			}
+			_ = e.FlushImMemTables()
+			time.Sleep(200 * time.Microsecond)
+		}
+	}()
+	wg.Wait()
+	close(stop)
+	drive.Quiesce(e)
+	_ = e.Close()
+	if fail != nil {
+		return fail
+	}
+	// read back: strictly increasing in file order, one entry per acknowledged write
+	var prev uint64
+	n := 0
+	var bad *failure
+	_, err = wal.ReplayWALDir(filepath.Join(dir, "wal"), func(en *wal.Entry) error {
+		n++
+		if en.SequenceNumber <= prev && bad == nil {
+			bad = &failure{"conc:readback-not-increasing", fmt.Sprintf("log entry %d (key %q) carries sequence %d, the entry before it %d", n, trunc(en.Key), en.SequenceNumber, prev)}
+		}
+		prev = en.SequenceNumber
+		return nil
+	})
+	if err != nil {
+		return &failure{"conc:readback-error", err.Error()}
+	}
+	if bad != nil {
+		return bad
+	}
+	if int64(n) != acked.Load() {
+		return &failure{"conc:readback-count", fmt.Sprintf("the log holds %d entries, %d writes were acknowledged", n, acked.Load())}
+	}
+	return nil
+}
+
+func TestPropConcurrent(t *testing.T) {
+	rapid.Check(t, func(t *rapid.T) {
+		c := ConcCase{
+			Cfg:     gen.Config(t),
+			Writers: rapid.IntRange(2, 6).Draw(t, "writers"),
+			Ops:     rapid.IntRange(20, 150).Draw(t, "ops"),
+			ValLen:  rapid.SampledFrom([]int{0, 40, 300}).Draw(t, "vallen"),
+			Flushes: rapid.IntRange(0, 40).Draw(t, "flushes"),
+			Yield:   rapid.SliceOfN(rapid.Uint8Range(0, 3), 1, 10).Draw(t, "yield"),
+		}
+		c.Cfg.MemTableSize = rapid.SampledFrom([]int64{256, 1024, 4096}).Draw(t, "mt")
+		f := runConc(&c)
+		ev.R().Case(ev.Hash(&c), c.Flushes > 0 || c.Cfg.MemTableSize <= 1024, []string{"kind:concurrent"}, func() any { return &c })
+		if f != nil {
+			path := ev.R().Fail(f.sig, f.msg, Doc{Property: "C08", Kind: "conc", Conc: &c, Failure: f.sig + ": " + f.msg})
+			t.Fatalf("C08 violated: %s: %s (replay %s)", f.sig, f.msg, path)
+		}
+	})
+}
+
 func TestReplay(t *testing.T) {
 	fn := os.Getenv("VERIF_REPLAY")
 	if fn == "" {
@@ -526,7 +680,11 @@ func TestReplay(t *testing.T) {
 		t.Fatal(err)
 	}
 	var f *failure
-	if d.Kind == "crash" {
+	if d.Kind == "conc" {
+		for i := 0; i < 20 && f == nil; i++ {
+			f = runConc(d.Conc)
+		}
+	} else if d.Kind == "crash" {
 		f, _ = runCrash(&d.Case, true)
 		if f != nil {
 			f.sig = "crash:" + f.sig
